@@ -7,8 +7,11 @@ From RTP Require Import Base.Bits Base.Res Base.ListX Model.RtpPacket Model.Sequ
 Import ListNotations.
 Open Scope Z_scope.
 
+(* ids 1-14 use the one-byte form, 15-255 the two-byte form *)
+Definition abs_profile (id : Z) : Z := if id <=? 14 then profile_one_byte else profile_two_byte.
+
 Definition with_abs (id : Z) (b : list Z) (pk : packet) : packet :=
-  mkPacket (with_exts (hdr pk) true profile_one_byte [mkExt id b]) (payload pk) (padding_size pk).
+  mkPacket (with_exts (hdr pk) true (abs_profile id) [mkExt id b]) (payload pk) (padding_size pk).
 
 (* the 24-bit 6.18 fixed-point send time, big-endian *)
 Definition abs_bytes (now_nano : Z) : list Z :=
@@ -25,8 +28,8 @@ Section WithPayloader.
   Variable pay : Z -> list Z -> list (list Z).
 
   Theorem packetize_abs : forall p payload samples now, sane (pz_seq p) -> payload <> [] ->
-    1 <= pz_abs p <= 14 ->
-    let frags := pay (u16 (pz_mtu p - 20)) payload in
+    1 <= pz_abs p <= 255 ->
+    let frags := pay (u16 (pz_mtu p - abs_overhead (pz_abs p))) payload in
     frags <> [] -> roc (pz_seq p) + zlen frags < 18446744073709551616 ->
     exists init lastp,
       expected_train p (ext (pz_seq p)) frags = init ++ [lastp] /\
@@ -49,11 +52,52 @@ Section WithPayloader.
     apply Forall_app in Hh as [_ Hl]. apply Forall_cons_iff in Hl as [(Hx & Hes) _].
     unfold set_extension. rewrite Hx, Hes.
     assert (Hu : u8 (pz_abs p) = pz_abs p) by (unfold u8; apply Z.mod_small; lia). rewrite Hu.
-    change (zlen (abs_bytes now)) with 3.
-    replace ((1 <=? 3) && (3 <=? 16) && (1 <=? pz_abs p) && (pz_abs p <=? 14)) with true by lia.
-    cbn [app snd]. reflexivity.
+    change (zlen (abs_bytes now)) with 3. unfold with_abs, abs_profile.
+    destruct (Z_le_gt_dec (pz_abs p) 14) as [H14|H14].
+    - replace ((1 <=? 3) && (3 <=? 16) && (1 <=? pz_abs p) && (pz_abs p <=? 14)) with true by lia.
+      replace (pz_abs p <=? 14) with true by lia. cbn [app snd]. reflexivity.
+    - replace ((1 <=? 3) && (3 <=? 16) && (1 <=? pz_abs p) && (pz_abs p <=? 14)) with false by lia.
+      replace ((3 <? 256) && (1 <=? pz_abs p)) with true by lia.
+      replace (pz_abs p <=? 14) with false by lia. cbn [app snd]. reflexivity.
   Qed.
+
 End WithPayloader.
+
+  (* the packet that carries the extension grows by exactly the room the budget left for it *)
+  Lemma with_abs_size id b pk : 1 <= id <= 255 -> zlen b = 3 -> extension (hdr pk) = false ->
+    packet_marshal_size (with_abs id b pk) = packet_marshal_size pk + (abs_overhead id - 12).
+  Proof.
+    intros Hid Hb Hx. unfold packet_marshal_size, header_marshal_size, with_abs, with_exts, abs_overhead, abs_profile.
+    cbn [hdr extension csrc payload padding_size]. rewrite Hx.
+    replace (id =? 0) with false by lia.
+    unfold ext_block_size. cbn [extension_profile extensions].
+    destruct (id <=? 14) eqn:E14.
+    - replace (14 <? id) with false by lia.
+      change (profile_one_byte =? profile_one_byte) with true. cbn [fold_left epayload]. rewrite Hb.
+      change ((4 + 1 + 3 + 3) / 4 * 4) with 8. lia.
+    - replace (14 <? id) with true by lia.
+      change (profile_two_byte =? profile_one_byte) with false. change (profile_two_byte =? profile_two_byte) with true.
+      cbn [fold_left epayload]. rewrite Hb. change ((4 + 2 + 3 + 3) / 4 * 4) with 12. lia.
+  Qed.
+
+  (* ... so with a payloader that honours its budget the whole train, extension included, stays
+     within the MTU *)
+  Theorem train_abs_within_mtu p e frags id b mtu : 1 <= id <= 255 -> zlen b = 3 ->
+    Forall (fun f => zlen f <= mtu - abs_overhead id) frags ->
+    forall init lastp, expected_train p e frags = init ++ [lastp] ->
+    Forall (fun pk => packet_marshal_size pk <= mtu) (init ++ [with_abs id b lastp]).
+  Proof.
+    intros Hid Hb Hall init lastp Hsplit.
+    pose proof (train_within_mtu p e frags (mtu - abs_overhead id) Hall) as Hm. rewrite Hsplit in Hm.
+    apply Forall_app in Hm as [Hi Hl]. apply Forall_cons_iff in Hl as [Hl _].
+    assert (Hov : 20 <= abs_overhead id <= 24) by (unfold abs_overhead; destruct (id =? 0) eqn:E0; destruct (14 <? id) eqn:E1; lia).
+    apply Forall_app. split.
+    - eapply Forall_impl; [|exact Hi]. cbv beta. intros pk H. lia.
+    - constructor; [|constructor].
+      pose proof (train_hdrs p frags e) as Hh. rewrite Hsplit in Hh.
+      apply Forall_app in Hh as [_ Hh]. apply Forall_cons_iff in Hh as [(Hx & _) _].
+      rewrite (with_abs_size id b lastp Hid Hb Hx). lia.
+  Qed.
 
 (* ---- whole histories ---- *)
 
@@ -98,7 +142,7 @@ Section Histories.
   Definition consumed (p : pktz) (o : pop) : Z :=
     match o with
     | OPacketize [] _ _ => 0
-    | OPacketize pl _ _ => zlen (pay (u16 (pz_mtu p - (if pz_abs p =? 0 then 12 else 20))) pl)
+    | OPacketize pl _ _ => zlen (pay (u16 (pz_mtu p - abs_overhead (pz_abs p))) pl)
     | OPadding n => Z.of_nat (Z.to_nat n)
     | _ => 0
     end.
@@ -123,7 +167,7 @@ Section Histories.
       + cbn [packetize]. split; [exact Hs|]. split; [lia|]. split; [change (zlen (@nil packet)) with 0; lia|].
         intros k pk H. destruct k; discriminate.
       + set (payload := b0 :: rest) in *.
-        set (frags := pay (u16 (pz_mtu p - (if pz_abs p =? 0 then 12 else 20))) payload) in *.
+        set (frags := pay (u16 (pz_mtu p - abs_overhead (pz_abs p))) payload) in *.
         unfold packetize. fold payload. unfold payload at 1. fold frags.
         pose proof (build_packets_spec frags p (pz_seq p) Hs Hb) as Hbp.
         destruct (build_packets p (pz_seq p) frags) as [s' pkts]. destruct Hbp as (Hs' & He & Hp).
